@@ -472,6 +472,48 @@ func trapGlobalsCase(r *rng.R, dir string) string {
 	return fmt.Sprintf("trapglobals %d %x %d => %s | %s", model, loadAt, pad, res, o)
 }
 
+// longFaultCase: read_byte_long / write_byte_long at the last address of the linear view (fine) and at or past its end
+// (a fault: the script call raises an error, the test case fails — never a silent zero or a dropped write)
+func longFaultCase(r *rng.R, dir string) string {
+	spec := memSpecs[r.Intn(len(memSpecs))]
+	total := int(linTotals[spec])
+	addr := total - 1 - r.Intn(3)
+	switch r.Intn(4) {
+	case 0:
+		addr = total
+	case 1:
+		addr = total + 1 + r.Intn(0x2000)
+	case 2:
+		addr = total + r.Intn(1<<22)
+	}
+	op := []string{"r", "w"}[r.Intn(2)]
+	call := fmt.Sprintf("read_byte_long(%d)", addr)
+	if op == "w" {
+		call = fmt.Sprintf("write_byte_long(%d, 1)", addr)
+	}
+	writeFile(dir, "lf.lua", []byte("function arrange() "+call+" end\nfunction assert() return true end\n"))
+	bin := writeFile(dir, "lf.bin", prg(0x0800, 0x00))
+	pend("longfault %s %s %x", spec, op, addr)
+	cfg := emuconfig.DefaultConfig()
+	cfg.MemSpec = spec
+	res := "ok"
+	var err error
+	if protect(func() {
+		c, e := cfg.NewCpu()
+		if e != nil {
+			panic(e)
+		}
+		tc := &verifier.TestCase{Name: "lf", TestDriverSource: "lf.a", TestScript: "lf.lua"}
+		err = tc.Execute(c, &fakeAsm{bins: map[string]string{"lf.a": bin}}, dir, nil, nil, "id")
+	}) {
+		res = "hostcrash"
+	} else if err != nil {
+		res = "error"
+	}
+	count("luaapi.longfault")
+	return fmt.Sprintf("longfault %s %s %x => %s", spec, op, addr, res)
+}
+
 func luaapiStream(seed uint64, n int) {
 	r := rng.New(seed + 1212)
 	dir := tmpDir()
@@ -480,6 +522,9 @@ func luaapiStream(seed uint64, n int) {
 		emit(apiCase(r, dir))
 		if i%10 == 3 {
 			emit(trapGlobalsCase(r, dir))
+		}
+		if i%10 == 7 {
+			emit(longFaultCase(r, dir))
 		}
 	}
 }
